@@ -638,6 +638,9 @@ mod tests {
 
     #[cfg(lumina_verif)]
     mod verif_native {
-        include!(concat!(env!("LUMINA_VERIF_DIR"), "/native/types/blob_arith.rs"));
+        include!(concat!(
+            env!("LUMINA_VERIF_DIR"),
+            "/native/types/blob_arith.rs"
+        ));
     }
 }
